@@ -75,6 +75,9 @@ def gen_returns(rng, method, has_labels):
 
 def gen_case(rng, tier):
     case = c16.gen_case(rng, tier)
+    if case["dist"] in ("p9", "p12"):
+        # high Minkowski orders are C16's business (tolerances on d^p grow with p; KLEOR compares distances with each other)
+        case["dist"] = "p3"
     n = case["n"]
     method = rng.choice(METHODS)
     ncls = rng.randint(2, 4)
@@ -98,6 +101,11 @@ def gen_case(rng, tier):
     case["returns"] = gen_returns(rng, method, case["labels"] is not None)
     if rng.random() < 0.3:
         case["k"] = rng.randint(1, n)
+    if case["proj"]["wk"] != "target" and rng.random() < 0.25:
+        # integer one-hot targets for the cases, probabilities (arg-max = the class) for the queries
+        case["int_targets"] = True
+        case["targets"] = [[1.0 if j == argmax(t) else 0.0 for j in range(ncls)] for t in case["targets"]]
+        case["qtargets"] = [[0.5 if j == argmax(t) else 0.5 / max(1, ncls - 1) * 0.5 for j in range(ncls)] for t in case["qtargets"]]
     return case
 
 
